@@ -81,6 +81,8 @@ pub struct WorkerResult {
     pub sections: BTreeMap<String, u64>,
     pub exhaustive_sections: Vec<String>,
     pub inconclusive: Vec<String>,
+    #[serde(default)]
+    pub slowest_case_ms: u64,
 }
 
 pub struct KnownFindings {
@@ -175,9 +177,11 @@ impl Ctx {
             *m = InflightMap::create(&p);
         }
         if let Some(map) = m.as_mut() { map.set(bytes); }
+        CASE_STARTED_MS.store(now_ms(), std::sync::atomic::Ordering::SeqCst);
     }
     pub fn clear_inflight(&self) {
         if let Some(map) = self.inflight_map.borrow_mut().as_mut() { map.set(b""); }
+        CASE_STARTED_MS.store(0, std::sync::atomic::Ordering::SeqCst);
     }
 
     pub fn note(&self, name: &str) { *self.res.borrow_mut().notes.entry(name.to_string()).or_insert(0) += 1; }
@@ -308,10 +312,11 @@ impl Ctx {
         let result = runner.run(&strategy, |case| {
             let shrinking = *failed_flag.borrow();
             *self.shrinking.borrow_mut() = shrinking;
-            if !shrinking {
-                self.inflight_ser(&case);
-            }
+            self.inflight_ser(&case);
+            let t_case = Instant::now();
             let verdict = oracle(&case);
+            let ms = t_case.elapsed().as_millis() as u64;
+            if ms > self.res.borrow().slowest_case_ms { self.res.borrow_mut().slowest_case_ms = ms; }
             if shrinking {
                 // during shrinking: only unlisted failures count as failures; nothing is counted
                 return match verdict {
@@ -395,6 +400,25 @@ pub fn truncate_json(v: &mut Value, max: usize) {
         Value::Object(o) => { for (_, x) in o.iter_mut() { truncate_json(x, max) } }
         _ => {}
     }
+}
+
+// ------------------------------------------------------------------------------------------------
+// per-case watchdog of a worker process
+
+pub static CASE_STARTED_MS: std::sync::atomic::AtomicU64 = std::sync::atomic::AtomicU64::new(0);
+
+pub fn now_ms() -> u64 { std::time::SystemTime::now().duration_since(std::time::UNIX_EPOCH).map(|d| d.as_millis() as u64).unwrap_or(0) }
+
+/// Started in worker processes: if one case runs longer than `limit_s`, leave a marker next to the in-flight record and stop the process with exit code 5.
+pub fn start_case_watchdog(dir: PathBuf, worker: u32, limit_s: u64) {
+    std::thread::Builder::new().name("rwsv-watchdog".into()).spawn(move || loop {
+        std::thread::sleep(std::time::Duration::from_millis(200));
+        let started = CASE_STARTED_MS.load(std::sync::atomic::Ordering::SeqCst);
+        if started != 0 && now_ms().saturating_sub(started) > limit_s * 1000 {
+            let _ = std::fs::write(dir.join(format!("w{}.hang", worker)), format!("{}", limit_s));
+            std::process::exit(5);
+        }
+    }).ok();
 }
 
 // ------------------------------------------------------------------------------------------------
@@ -482,6 +506,10 @@ pub struct RunSpec {
     pub level: &'static str,
     pub assumptions: Vec<String>,
     pub timeout_s: u64,
+    /// per-case limit in seconds; a case that runs longer makes the worker stop with its in-flight case saved
+    pub case_limit_s: u64,
+    /// properties whose statement includes termination report such a case as a violation (sig hang:<section>); others as inconclusive
+    pub hang_is_violation: bool,
 }
 
 pub fn scratch_base() -> PathBuf {
@@ -542,6 +570,7 @@ pub fn run_parent(spec: RunSpec, regressions: bool) -> i32 {
             .arg("--worker").arg(w.to_string())
             .arg("--workers").arg(spec.workers.to_string())
             .arg("--dir").arg(&dir)
+            .arg("--case-limit").arg(spec.case_limit_s.to_string())
             .stdout(log).stderr(log2)
             .stdin(std::process::Stdio::null())
             .spawn().expect("spawn child");
@@ -583,6 +612,21 @@ pub fn run_parent(spec: RunSpec, regressions: bool) -> i32 {
                         if known.is_known(&spec.property, &vsig) { *merged.known.entry(vsig).or_insert(0) += 1; } else { merged.violations.push(v); }
                     }
                     // partial results of that worker are lost; fine
+                } else if st.code() == Some(5) {
+                    // a single case exceeded the per-case limit
+                    let inflight: Value = InflightMap::read(&inflight_path).and_then(|b| serde_json::from_slice(&b).ok()).unwrap_or(Value::Null);
+                    let section = inflight.get("section").and_then(|s| s.as_str()).unwrap_or("").to_string();
+                    let vsig = format!("hang:{}", section);
+                    let v = Violation { property: spec.property.clone(), section: section.clone(), sig: vsig.clone(), detail: format!("the case did not return within {} s (worker stopped by the per-case watchdog)", spec.case_limit_s), case: inflight.get("case").cloned().unwrap_or(Value::Null) };
+                    if spec.hang_is_violation {
+                        if known.is_known(&spec.property, &vsig) { *merged.known.entry(vsig).or_insert(0) += 1; } else { merged.violations.push(v); }
+                    } else {
+                        let keep = PathBuf::from(VERIF_DIR).join("replays");
+                        let _ = std::fs::create_dir_all(&keep);
+                        let kp = keep.join(format!("{}-hang-w{}.json", spec.property, w));
+                        let _ = std::fs::write(&kp, serde_json::to_vec_pretty(&v).unwrap());
+                        infra.push(format!("worker {}: a case in section {} exceeded the per-case limit of {} s (saved to {})", w, section, spec.case_limit_s, kp.display()));
+                    }
                 } else if st.code() == Some(0) || st.code() == Some(1) {
                     match std::fs::read(&result_path).ok().and_then(|b| serde_json::from_slice::<WorkerResult>(&b).ok()) {
                         Some(r) => merge(&mut merged, &mut nontrivial, r),
@@ -635,6 +679,8 @@ pub fn run_parent(spec: RunSpec, regressions: bool) -> i32 {
         "notes": merged.notes,
         "regressions_replayed": regression_count,
         "workers": spec.workers,
+        "slowest_case_ms": merged.slowest_case_ms,
+        "per_case_limit_s": spec.case_limit_s,
         "rws_source": option_env!("RWS_VERIF_SRC_USED").unwrap_or("/repo"),
     });
     if exhaustive {
@@ -671,6 +717,7 @@ fn merge(into: &mut WorkerResult, nontrivial: &mut HashSet<u64>, r: WorkerResult
     for (k, v) in r.known_examples { into.known_examples.entry(k).or_insert(v); }
     for (k, v) in r.notes { *into.notes.entry(k).or_insert(0) += v; }
     for (k, v) in r.sections { *into.sections.entry(k).or_insert(0) += v; }
+    into.slowest_case_ms = into.slowest_case_ms.max(r.slowest_case_ms);
     into.violations.extend(r.violations);
     into.exhaustive_sections.extend(r.exhaustive_sections);
     into.inconclusive.extend(r.inconclusive);
@@ -679,21 +726,28 @@ fn merge(into: &mut WorkerResult, nontrivial: &mut HashSet<u64>, r: WorkerResult
 /// Replay one file in a child process (so that aborts are observed). Returns (code, stdout): 0 pass, 1 fail, other infra.
 pub fn replay_in_child(exe: &Path, file: &Path, dir: &Path, strict: bool) -> (i32, String) {
     let log = dir.join(format!("replay-{}.log", hash64(&file.to_string_lossy().to_string())));
+    let out_path = dir.join(format!("replay-{}.out", hash64(&file.to_string_lossy().to_string())));
+    let limit_s: u64 = std::env::var("RWSV_REPLAY_LIMIT_S").ok().and_then(|v| v.parse().ok()).unwrap_or(120);
     let mut cmd = std::process::Command::new(exe);
     cmd.arg("replay-child").arg(file).arg("--dir").arg(dir);
     if strict { cmd.arg("--strict"); }
-    let out = cmd.stderr(std::fs::File::create(&log).unwrap()).stdin(std::process::Stdio::null()).output();
-    match out {
-        Err(_) => (3, String::new()),
-        Ok(o) => {
-            use std::os::unix::process::ExitStatusExt;
-            let text = String::from_utf8_lossy(&o.stdout).to_string();
-            if let Some(sig) = o.status.signal() {
-                return (1, format!("REPLAY-FAIL sig=abort:signal-{} process died", sig));
+    let child = cmd.stdout(std::fs::File::create(&out_path).unwrap()).stderr(std::fs::File::create(&log).unwrap()).stdin(std::process::Stdio::null()).spawn();
+    let mut child = match child { Ok(c) => c, Err(_) => return (3, String::new()) };
+    let deadline = Instant::now() + std::time::Duration::from_secs(limit_s);
+    let status = loop {
+        match child.try_wait() {
+            Ok(Some(st)) => break st,
+            Ok(None) => {
+                if Instant::now() > deadline { let _ = child.kill(); let _ = child.wait(); return (1, format!("REPLAY-FAIL sig=hang:replay the case did not return within {} s\n", limit_s)); }
+                std::thread::sleep(std::time::Duration::from_millis(10));
             }
-            (o.status.code().unwrap_or(3), text)
+            Err(_) => return (3, String::new()),
         }
-    }
+    };
+    use std::os::unix::process::ExitStatusExt;
+    let text = std::fs::read_to_string(&out_path).unwrap_or_default();
+    if let Some(sig) = status.signal() { return (1, format!("REPLAY-FAIL sig=abort:signal-{} process died\n", sig)); }
+    (status.code().unwrap_or(3), text)
 }
 
 pub fn make_child_ctx(property: &str, tier: Tier, seed: u64, worker: u32, workers: u32, dir: &Path, strict: bool) -> Ctx {
